@@ -174,3 +174,50 @@ def legacy_p_begin_end(x: int, which: bool) -> str:
     """
     from pycaption.dfxp.extras import LegacyDFXPWriter
     return _dfxp_p(LegacyDFXPWriter(), x if which else 0, 86399999999 if which else x, True)
+
+
+# --- DFXP writers, whole write(): one p per caption in order; only CONSECUTIVE captions with identical times may merge ---
+def dfxp_cue_structure(w: int, k0: bool, k1: bool, k2: bool, k3: bool) -> str:
+    """
+    pre: 0 <= w <= 2
+    post: _ == ""
+    """
+    import pycaption.dfxp.base as db
+    import pycaption.dfxp.extras as dx
+    from pycaption.dfxp import DFXPWriter
+    from pycaption.dfxp.extras import LegacyDFXPWriter, SinglePositioningDFXPWriter
+    from harness.fakesoup import dfxp_soup
+    from harness.C07_dfxp import _with_fake
+    spans = [((1000000, 3000000) if k else (1000000, 2000000)) for k in (k0, k1, k2, k3)]
+    caps = [Caption(a, b, [CaptionNode.create_text("t%d" % i)]) for i, (a, b) in enumerate(spans)]
+    cs = CaptionSet({"en": CaptionList(caps)})
+    holder = []
+
+    def run():
+        wr = DFXPWriter() if w == 0 else (SinglePositioningDFXPWriter() if w == 1 else LegacyDFXPWriter())
+
+        def factory(markup, features=None):
+            s = dfxp_soup()
+            holder.append(s)
+            return s
+        db.BeautifulSoup = dx.BeautifulSoup = factory
+        return wr.write(cs)
+    _with_fake(run)
+    ps = holder[-1].find("body").find_all("p")
+    got = [(p.attrs.get("begin"), p.attrs.get("end")) for p in ps]
+    want = []
+    for i, (a, b) in enumerate(spans):
+        cue = (ref_hms(a, "."), ref_hms(b, "."))
+        if w != 0 and want and want[-1] == cue and spans[i - 1] == (a, b):
+            continue   # merged into the preceding cue (identical consecutive timespan)
+        want.append(cue)
+    if got != want:
+        return "cues written: one per caption in order (only consecutive captions with identical times may share a cue)"
+    # every caption's text is in the cue written at its position
+    j = -1
+    for i, (a, b) in enumerate(spans):
+        if not (w != 0 and i > 0 and spans[i - 1] == (a, b)):
+            j += 1
+        if ("t%d" % i) not in (ps[j].string or ""):
+            return "a caption's text is not in the cue of its own position"
+    return ""
